@@ -346,12 +346,14 @@ func init() {
 		Rule: "producer ingest, scaled block size 3 (build-time overlay of the literal 255): every key subset of a 10-key universe (1024 tables of 0..10 rows = 0..4 blocks, incl. the all-empty first row), crossed with up to d deviations over {keyless, descending file order, a duplicate key, run size, workers 1..3, delimiter}; " +
 			"producer ingest, composite keys: 3..4-column tables of 0..5 rows under every ordered key subset of 3 columns (all 6 orders of a 3-column key); producer ingest, real block size: 0,1,2,254,255,256,509,510,511,765 rows x key {[0], none, [1,0]} x all-empty first row x run size x workers; producer doctor: every table of 1..7 rows with each row stored twice, as the head of a branch whose parent commit carries another corrupted table of 1, 2 or 3 columns (one resolver, its sorter reused across tables of different widths), keyed and keyless, is diagnosed and resolved. " +
 			"Every produced table is checked by an independent structural oracle (row count, full blocks, strictly increasing keys, block stored under hash of content, block-index entries = hash(key)||hash(row) recomputed by an independent encoder, sorted-offset permutation, lookup of every key, table index = first keys, profile) " +
-			"and by the repository's doctor.Diagnose (must report nothing). Merge-result and wire-receipt producers run the same oracle inside C05 and C07. non-trivial = a table was produced; distinct by case description",
+			"and by the repository's doctor.Diagnose (must report nothing). Merge-result and honest wire-receipt producers run the same oracle inside C05 and C07; the wire-receipt producer fed by a sender that is not honest (every sequence of 1..3, thorough 4, of 17 well-formed but mutually inconsistent objects, see C17) runs here: every table the receiver keeps must pass the same oracle. non-trivial = a table was produced; distinct by case description",
 		Assumptions: []string{"the scaled configuration changes only the literal block size in sorter.go, block.go, table.go (self-checked: blocks of exactly 3 rows are demanded by the oracle)", "tables beyond 4 blocks are not enumerated"},
 		Harnesses: []*mc.Harness{
 			{Name: "b3-ingest", Variant: "b3", Body: c03B3, DevBound: map[string]int{"quick": 2, "thorough": 4}, Budget: map[string]time.Duration{"quick": 60 * time.Second, "thorough": 12 * time.Minute}},
 			{Name: "b3-composite-keys", Variant: "b3", Body: c03Composite, DevBound: map[string]int{"quick": 1, "thorough": 3}, Budget: map[string]time.Duration{"quick": 40 * time.Second, "thorough": 5 * time.Minute}},
 			{Name: "real-sizes", Body: c03Real, Budget: map[string]time.Duration{"quick": 50 * time.Second, "thorough": 5 * time.Minute}},
+			// the wire-receipt producer fed by a sender that is not honest: the object sequences of C17, same body, judged by I-TABLE
+			{Name: "receiver-object-sequences", Body: c17Objects, MemKB: 8 << 20, Procs: 1, Budget: map[string]time.Duration{"quick": 60 * time.Second, "thorough": 10 * time.Minute}},
 			{Name: "b3-doctor-resolve", Variant: "b3", Body: c03Doctor, Budget: map[string]time.Duration{"quick": 30 * time.Second, "thorough": 5 * time.Minute}},
 		},
 	})
